@@ -1017,4 +1017,69 @@ theorem blob_path_empty_anyroot (root : Bytes) (hne : root ≠ []) :
 example : getBlobsPath [46, 47, 120, 47, 46, 46, 47, 109, 47, 47] [] = some [109, 47, 98, 108, 111, 98, 115] := by decide
 
 
+/-! ## 21. `model.Name.EqualFold` and the cache's case folding -/
+
+
+/-- for ASCII strings on both sides `strings.EqualFold` is equality of the lower-cased strings -/
+theorem equalFold_ascii_iff (w y : Bytes) (hw : ∀ c ∈ w, c.toNat < 128) (hy : ∀ c ∈ y, c.toNat < 128) :
+    equalFold w y = true ↔ w.map toLowerB = y.map toLowerB := by
+  constructor
+  · intro h
+    unfold equalFold at h
+    induction w generalizing y with
+    | nil =>
+      cases y with
+      | nil => rfl
+      | cons b ys => simp [foldMatch] at h
+    | cons c cs ih =>
+      cases y with
+      | nil => simp [foldMatch] at h
+      | cons b ys =>
+        have hb : b < 128 := by
+          rw [UInt8.lt_iff_toNat_lt]; simpa using hy b List.mem_cons_self
+        simp only [List.map_cons, foldMatch, hb, if_true, Bool.and_eq_true, beq_iff_eq] at h
+        simp only [List.map_cons, List.cons.injEq]
+        exact ⟨h.1.symm, ih ys (fun c' hc' => hw c' (List.mem_cons_of_mem _ hc'))
+          (fun c' hc' => hy c' (List.mem_cons_of_mem _ hc')) h.2⟩
+  · exact equalFold_of_lowerEq w y hw
+
+/-- **The legacy server's and the new cache's notions of "same name up to case" coincide** on valid names:
+    `model.Name.EqualFold` (part by part, what `getExistingName` compares) holds iff the parts have equal lower-case forms,
+    which is the hypothesis under which the cache sends both names to the same manifest (`fold_same_path`). -/
+theorem nameEqualFold_iff (a b : Name) (ha : isFQM a = true) (hb : isFQM b = true) :
+    nameEqualFold a b = true ↔ foldEqName a b := by
+  simp only [isFQM, Bool.and_eq_true] at ha hb
+  obtain ⟨⟨⟨ah, an⟩, am⟩, at'⟩ := ha
+  obtain ⟨⟨⟨bh, bn⟩, bm⟩, bt⟩ := hb
+  have A := fun k s (h : validPartM k s = true) => charsOk_ascii k s (validPartM_charsOk h)
+  simp only [nameEqualFold, Bool.and_eq_true, foldEqName,
+    equalFold_ascii_iff _ _ (A _ _ ah) (A _ _ bh), equalFold_ascii_iff _ _ (A _ _ an) (A _ _ bn),
+    equalFold_ascii_iff _ _ (A _ _ am) (A _ _ bm), equalFold_ascii_iff _ _ (A _ _ at') (A _ _ bt)]
+  constructor
+  · rintro ⟨⟨⟨h1, h2⟩, h3⟩, h4⟩; exact ⟨h1, h2, h3, h4⟩
+  · rintro ⟨h1, h2, h3, h4⟩; exact ⟨⟨⟨h1, h2⟩, h3⟩, h4⟩
+
+/-- … hence two valid names that the legacy server treats as the same model (`EqualFold`) select the same link in every
+    cache directory listing: the new cache never separates what the legacy lookup joins. -/
+theorem equalFold_names_same_cache_link (links : List Bytes) (a b : Name) (ha : isFQM a = true) (hb : isFQM b = true)
+    (h : nameEqualFold a b = true) :
+    links.find? (equalFold (pathJoin [sManifests, joinWith cSlash [a.host, a.ns, a.model, a.tag]]))
+      = links.find? (equalFold (pathJoin [sManifests, joinWith cSlash [b.host, b.ns, b.model, b.tag]])) := by
+  have hfa : isFQN a = true := by rw [← isFQM_eq_isFQN]; exact ha
+  have hfb : isFQN b = true := by rw [← isFQM_eq_isFQN]; exact hb
+  have pa : parseN (toStr a) = a := print_parse_names a hfa
+  have pb : parseN (toStr b) = b := print_parse_names b hfb
+  have h1 : nameToPath (toStr a) ≠ none := by simp [nameToPath, pa, hfa]
+  have h2 : nameToPath (toStr b) ≠ none := by simp [nameToPath, pb, hfb]
+  have hf : foldEqName (parseN (toStr a)) (parseN (toStr b)) := by
+    rw [pa, pb]; exact (nameEqualFold_iff a b ha hb).mp h
+  have := (fold_same_path [] links (toStr a) (toStr b) h1 h2 hf).1
+  simpa only [pa, pb] using this
+
+example :
+    let a : Name := { host := [104], ns := [110], model := [80, 104, 105], tag := [116] }
+    let b : Name := { host := [72], ns := [78], model := [112, 72, 73], tag := [84] }
+    isFQM a = true ∧ isFQM b = true ∧ nameEqualFold a b = true ∧ a ≠ b := by decide
+
+
 end OllamaVerif.C13
